@@ -602,6 +602,36 @@ func (r *e1run) checkC03(si, k int) {
 // expose the same media sequence numbers and durations (C04), the writer being stopped inside the callback.
 func (r *e1run) midCallback(error) {
 	m := r.mi.m
+	// a stream whose own mutex is free while the callback runs serves its playlist to concurrent readers right now: what
+	// they get must satisfy the clauses that relate the tags of one response to each other
+	if !r.faulted {
+		for _, s := range m.streams {
+			if !s.mutex.TryLock() {
+				continue
+			}
+			has := s.hasContent()
+			s.mutex.Unlock()
+			if !has {
+				continue
+			}
+			p, _, _ := m3u.Parse(muxGet(m, mediaPlaylistPath(s.id)).Body.Bytes(), m3u.Options{})
+			if p == nil || !p.HasTargetDuration {
+				continue
+			}
+			for i, seg := range p.Segments {
+				if roundHalfUp(seg.DurationNS) > p.TargetDuration {
+					r.add("C03", "targetduration-too-small-inside-callback", "inside OnEncodeError during write %d (stream %s answers requests: its mutex is free) segment %d is listed with EXTINF %s under EXT-X-TARGETDURATION %d; ops %s",
+						len(r.ops)-1, s.id, p.MediaSequence+i, seg.DurationText, p.TargetDuration, r.opsString())
+				}
+				for _, pt := range seg.Parts {
+					if p.PartTargetNS != nil && pt.DurationNS > *p.PartTargetNS+10_000 {
+						r.add("C03", "part-target-too-small-inside-callback", "inside OnEncodeError during write %d (stream %s answers requests: its mutex is free) part %s lasts %d ns under PART-TARGET %d ns; ops %s",
+							len(r.ops)-1, s.id, canon(pt.URI), pt.DurationNS, *p.PartTargetNS, r.opsString())
+					}
+				}
+			}
+		}
+	}
 	if r.faulted || len(m.streams) < 2 || !m.mutex.TryLock() {
 		return // requests would block until the callback has returned
 	}
